@@ -824,8 +824,19 @@ class Interp:
     def lookup(self, name, fr, node=None):
         if name in fr.env:
             v = fr.env[name]
+            if isinstance(v, Term) and v.sort == "bool":
+                return self.concretize(v)
             return v
         return self.eval_global(fr.module, name, node)
+
+    def concretize(self, v):
+        """a boolean term whose atom is already decided on this path becomes a
+        concrete bool"""
+        if isinstance(v, Term) and v.sort == "bool":
+            atom, pol = atom_of(v)
+            if atom in self.facts:
+                return self.facts[atom] == pol
+        return v
 
     def eval(self, e, fr):
         self.tick()
@@ -1041,6 +1052,13 @@ class Interp:
         if is_sym(a) or is_sym(b):
             if isinstance(a, (Term, int, bytes, str, bool, FieldVal, tuple, type(None), float)) and \
                isinstance(b, (Term, int, bytes, str, bool, FieldVal, tuple, type(None), float)):
+                a, b = self.concretize(a), self.concretize(b)
+                if o in ("==", "!="):
+                    # bool-term against a concrete bool: eq(t, True) is t itself
+                    for x, y in ((a, b), (b, a)):
+                        if isinstance(x, Term) and x.sort == "bool" and isinstance(y, bool):
+                            r = x if y else t_not(x)
+                            return r if o == "==" else t_not(r)
                 return t_cmp(o, a, b)
             raise AnalysisError(f"{self.where(node)}: comparison of {a!r} and {b!r}")
         try:
